@@ -276,7 +276,8 @@ def _neg_request(case):
         req["driver_first"] = True
     elif op == "driver-built-for-other-elements":
         # a driver object built (with its own dictionary) for a molecule made of other elements is applied to this molecule
-        req["foreign_driver"] = {"species": [[17, 1]] if method != "MNDO" else [[9, 1]], "coords": [[[0.0, 0, 0], [0.9, 0.7, 0.5]]]}
+        # (H2: every base molecule of this operator contains at least one heavy atom the H2 driver has no parameters for)
+        req["foreign_driver"] = {"species": [[1, 1]], "coords": [[[0.0, 0, 0], [0.45, 0.42, 0.4]]]}
     return req
 
 
